@@ -110,6 +110,25 @@ func (l *leaf) res(p []byte) (int, error) {
 	return len(p), nil
 }
 
+// syslogLeaf is a syslog.Writer look-alike: one method per severity, plus Write.
+type syslogLeaf struct{ *leaf }
+
+func (l syslogLeaf) call(lv int, m string) error {
+	l.log = append(l.log, got{lv, m})
+	_, err := l.res([]byte(m))
+	return err
+}
+func (l syslogLeaf) Write(p []byte) (int, error) {
+	l.log = append(l.log, got{-100, string(p)})
+	return l.res(p)
+}
+func (l syslogLeaf) Debug(m string) error   { return l.call(0, m) }
+func (l syslogLeaf) Info(m string) error    { return l.call(1, m) }
+func (l syslogLeaf) Warning(m string) error { return l.call(2, m) }
+func (l syslogLeaf) Err(m string) error     { return l.call(3, m) }
+func (l syslogLeaf) Emerg(m string) error   { return l.call(4, m) }
+func (l syslogLeaf) Crit(m string) error    { return l.call(5, m) }
+
 type plainLeaf struct{ *leaf }
 
 func (l plainLeaf) Write(p []byte) (int, error) {
@@ -158,6 +177,21 @@ func build(ds []Dest, outcomes [][]int, leaves *[]*leaf, filters *[][]int, path 
 				ws = append(ws, zerolog.SyncWriter(levelLeaf{lf}))
 			case "adapter":
 				ws = append(ws, zerolog.LevelWriterAdapter{Writer: plainLeaf{lf}})
+			case "syslog", "syslog-cee":
+				// the syslog adapters: a method per severity that reports an error or nothing (no byte
+				// counts: a "short write" outcome means success here); Trace events are not forwarded
+				oc := append([]int{}, lf.outcomes...)
+				for i := range oc {
+					if oc[i] < 0 {
+						oc[i] = 0
+					}
+				}
+				lf.outcomes = oc
+				if d.Kind == "syslog" {
+					ws = append(ws, zerolog.SyslogLevelWriter(syslogLeaf{lf}))
+				} else {
+					ws = append(ws, zerolog.SyslogCEEWriter(syslogLeaf{lf}))
+				}
 			case "logger":
 				// another Logger as a destination (Logger is an io.Writer): it logs the line as the message
 				// of an event of its own and must report the whole input as written; its own destination
@@ -289,7 +323,39 @@ func run(c *Case) (msg string, nontrivial bool) {
 			if lf.kind == "plain" || lf.kind == "sync-plain" || lf.kind == "adapter" || c.Direct {
 				lvl = -100
 			}
-			if lf.kind == "logger" {
+			if lf.kind == "syslog" || lf.kind == "syslog-cee" {
+				prefix := ""
+				if lf.kind == "syslog-cee" {
+					prefix = "@cee:"
+				}
+				if c.Direct {
+					// plain Write: the prefix and the line are written one after the other
+					if prefix != "" {
+						want[li] = append(want[li], got{-100, prefix})
+						o := 0
+						if calls[li] < len(lf.outcomes) {
+							o = lf.outcomes[calls[li]]
+						}
+						calls[li]++
+						if o > 0 {
+							if firstErr == nil {
+								firstErr = errs[o]
+							}
+							continue // the line itself is not attempted after a failed prefix
+						}
+					}
+					want[li] = append(want[li], got{-100, line})
+				} else {
+					if lv == -1 {
+						continue // Trace has no syslog severity: nothing is forwarded, nothing can fail
+					}
+					sl := lv
+					if lv == 6 {
+						sl = 1 // NoLevel is sent as Info
+					}
+					want[li] = append(want[li], got{sl, prefix + line})
+				}
+			} else if lf.kind == "logger" {
 				want[li] = append(want[li], got{6, "{\"message\":" + strconv.Quote(strings.TrimSuffix(line, "\n")) + "}\n"})
 			} else {
 				want[li] = append(want[li], got{lvl, line})
@@ -435,7 +501,7 @@ func pow(b, e int) int {
 func genDests(rt *rapid.T, n, depth int, label string) []Dest {
 	var ds []Dest
 	for i := 0; i < n; i++ {
-		kinds := []string{"plain", "level", "filtered", "filtered", "sync-plain", "sync-level", "adapter", "logger"}
+		kinds := []string{"plain", "level", "filtered", "filtered", "sync-plain", "sync-level", "adapter", "logger", "syslog", "syslog-cee"}
 		if depth > 0 {
 			kinds = append(kinds, "multi")
 		}
@@ -463,6 +529,15 @@ func countLeaves(ds []Dest) int {
 	return n
 }
 
+func hasKind(ds []Dest, k string) bool {
+	for _, d := range ds {
+		if d.Kind == k || hasKind(d.Sub, k) {
+			return true
+		}
+	}
+	return false
+}
+
 func TestRapid(t *testing.T) {
 	rapid.Check(t, func(rt *rapid.T) {
 		c := &Case{}
@@ -479,6 +554,14 @@ func TestRapid(t *testing.T) {
 		for i := 0; i < ne; i++ {
 			c.Levels = append(c.Levels, rapid.SampledFrom([]int{-1, 0, 1, 2, 3, 6, 9, 127, 5, 5}).Draw(rt, "lvl"))
 		}
+		if hasKind(c.Dests, "syslog") || hasKind(c.Dests, "syslog-cee") {
+			// the syslog adapters know the seven named levels and NoLevel only (anything else panics by design)
+			for i, lv := range c.Levels {
+				if lv == 9 || lv == 127 {
+					c.Levels[i] = 3
+				}
+			}
+		}
 		nl := countLeaves(c.Dests)
 		for d := 0; d < nl; d++ {
 			row := make([]int, ne)
@@ -491,6 +574,12 @@ func TestRapid(t *testing.T) {
 			c.Single = true
 		} else if rapid.IntRange(0, 4).Draw(rt, "direct") == 0 {
 			c.Direct = true
+		}
+		if c.Direct && hasKind(c.Dests, "syslog-cee") {
+			// outside the property (which is about events): through plain Write the CEE adapter returns
+			// len(prefix)+len(p), more than it was given, which the fan-out takes for a short write
+			c.Direct = false
+			rec.Excluded("plain Write through SyslogCEEWriter (returns more than len(p))")
 		}
 		c.HandlerLogs = !c.Direct && rapid.IntRange(0, 3).Draw(rt, "handlerlogs") == 0
 		c.NilHandler = !c.Direct && !c.HandlerLogs && rapid.IntRange(0, 5).Draw(rt, "nilhandler") == 0
